@@ -161,3 +161,9 @@ func (v *VerifListener4) LocalAddr() net.Addr { return v.l.PacketConn.LocalAddr(
 
 // LocalAddr is the address the socket is bound to.
 func (v *VerifListener6) LocalAddr() net.Addr { return v.l.PacketConn.LocalAddr() }
+
+// Serve runs the listener's receive loop (as Start does) until the socket is closed.
+func (v *VerifListener4) Serve() error { return v.l.Serve() }
+
+// Serve runs the listener's receive loop (as Start does) until the socket is closed.
+func (v *VerifListener6) Serve() error { return v.l.Serve() }
